@@ -65,9 +65,11 @@ func genC12(g *G, n int, out io.Writer) {
 				c.Validations[k].Rule = inner
 			}
 			c.Validations[k].Level = []string{"violation", "warning", "info"}[g.n(3)]
+			// any text is a validation name: the report must name the validation as the profile defines it.  The hostile pieces
+			// rotate with the case number, so every one of them occurs in some name of every run
+			c.Validations[k].Name = fmt.Sprintf("v%d", k) + hostilePieces[i%len(hostilePieces)]
 			if g.coin(0.25) {
-				// any text is a validation name: the report must name the validation as the profile defines it
-				c.Validations[k].Name = fmt.Sprintf("v%d", k) + g.hostile(3)
+				c.Validations[k].Name += g.hostile(3)
 			}
 			if g.coin(0.3) {
 				// the message key in its unusual legal forms: absent, null, a number, a boolean, a list - the documented default text applies
@@ -79,13 +81,13 @@ func genC12(g *G, n int, out io.Writer) {
 		prof := ProfileSpec{Name: fmt.Sprintf("c12_%d", i), Atoms: c.Atoms, Paths: c.Paths, Validations: c.Validations}
 		if i%5 == 2 {
 			// a constraint over a vocabulary whose namespace has no scheme: its trace entries name that path like any other
-			sl := SchemelessNS + g.pick([]string{"owner", "part_2", "a-b"})
+			sl := []string{SchemelessNS, SchemelessNS2}[(i/5)%2] + g.pick([]string{"owner", "part_2", "a-b"})
 			c.Atoms = append(c.Atoms, Atom{Kind: "minCount", Path: Path{P: &sl}, Arg: i64p(1)})
 			k := g.n(len(c.Validations))
 			old := c.Validations[k].Rule
 			c.Validations[k].Rule = Rule{And: []Rule{old, {Atom: ip(len(c.Atoms) - 1)}}}
 			prof.Atoms, prof.Validations = c.Atoms, c.Validations
-			prof.Prefixes = map[string]string{"sl": SchemelessNS}
+			prof.Prefixes = map[string]string{"sl": SchemelessNS, "sl2": SchemelessNS2}
 		}
 		c.Profile = prof.Render()
 		c.Data = c.Graph.RenderFlat()
